@@ -112,7 +112,7 @@ def extract(sheet, pos):
 
 
 def run_escape(row):
-    chars = "".join(chr(c) for c in row["cps"])
+    chars = "".join(("\\%x " % c) if 0xD800 <= c <= 0xDFFF else chr(c) for c in row["cps"])
     sheet = cssutils.parseString(POS[row["pos"]] % chars)
     sheet.encoding = row["target"]
     reported = sheet.encoding
